@@ -135,7 +135,7 @@ def generate(rng, tier, boost):
     # signature checks that reach the signature-hash code with every base hash type, on every kind of
     # transaction (mutable / immutable, other inputs signed / unsigned): nothing may be modified
     pk = b'\x02' + bytes(range(1, 33))
-    for ht in (0, 1, 2, 3, 0x22, 0x43, 0x81, 0x82, 0x83, 0xff):
+    for ht in (0, 1, 2, 3, 0x22, 0x23, 0x43, 0x63, 0x81, 0x82, 0x83, 0xa3, 0xc3, 0xe3, 0xff):
         sig = rbytes(rng, rng.choice([9, 40, 71, 72])) + bytes([ht])
         for mode in range(12):
             cases.append((701, [G.push(sig), G.push(pk) + b'\xac', rf(rng), mode]))
@@ -145,7 +145,7 @@ def generate(rng, tier, boost):
     # under every base hash type, against a valid and an undecodable key, single and multi
     for sig in (b'\x30', b'\x30\x01', b'\x30\x83', b'\x30\x00\x01', b'\x30\x06\x02\x01', b'\x00', b'\x01', b'\xff\xff',
                 b'\x30\x02\x02\x00\x01', b'\x30\x45' + b'\x02' * 8 + b'\x01'):
-        for key in (pk, b'\x02' + b'\xff' * 32, b'', b'\x04' + b'\x01' * 10):
+        for key in (pk, b'\x02' + b'\xff' * 32, b'', b'\x04' + b'\x01' * 10, b'\x04' + b'\x02' * 65, b'\x02' * 100, b'\x03' * 520):
             cases.append((701, [G.push(sig), G.push(key) + b'\xac', rf(rng), rng.randrange(12)]))
             cases.append((701, [b'\x00' + G.push(sig), b'\x51' + G.push(key) + b'\x51\xae', rf(rng), rng.randrange(12)]))
             cases.append((701, [G.push(sig) + G.push(key), b'\x76\xa9' + G.push(h160(key)) + b'\x88\xad\x51', rf(rng), rng.randrange(12)]))
